@@ -71,11 +71,9 @@ impl Monitor for C05 {
             && ctx.uplink.len() == 1
             && ptype(&ctx.uplink[0].1) == Some(T_SRT_NAK);
         if !nak_step {
-            // keep the model honest about divergences owned by C02
-            for c in world.conns.iter() {
-                let real: std::collections::BTreeSet<i32> = c.packet_log.keys().copied().collect();
-                self.model.sets.insert(c.conn_id, real);
-            }
+            // The set model is never resynchronised with the implementation's log: "had that
+            // packet outstanding" means handed to the socket since the link's last reset, by
+            // the monitor's own bookkeeping.
             return;
         }
         let mut charges: HashMap<u64, u32> = HashMap::new();
